@@ -157,12 +157,44 @@ func (c SliceLoopAssignment) String() string {
 	sb.WriteString(c.Typ)
 	sb.WriteString(", len(")
 	sb.WriteString(c.RHS)
-	sb.WriteString("))\nfor i, e := range ")
+	i, e := loopVarNames(c.LHS, c.RHS)
+	sb.WriteString("))\nfor " + i + ", " + e + " := range ")
 	sb.WriteString(c.RHS)
 	sb.WriteString("{\n")
 	sb.WriteString(c.LHS)
-	sb.WriteString("[i] = e\n}\n}\n")
+	sb.WriteString("[" + i + "] = " + e + "\n}\n}\n")
 	return sb.String()
+}
+
+// loopVarNames returns the names of the index and element variables of a slice copy
+// loop. They are "i" and "e" unless one of the expressions used in the loop starts with
+// a variable (or package) of that name, which the loop variable would shadow.
+func loopVarNames(exprs ...string) (index, elem string) {
+	taken := func(name string) bool {
+		for _, expr := range exprs {
+			if rootIdent(expr) == name {
+				return true
+			}
+		}
+		return false
+	}
+	index, elem = "i", "e"
+	for taken(index) || index == elem {
+		index += "i"
+	}
+	for taken(elem) || elem == index {
+		elem += "e"
+	}
+	return
+}
+
+// rootIdent returns the leading identifier of an expression such as "dst.User.Name".
+func rootIdent(expr string) string {
+	expr = strings.TrimLeft(expr, "&*(")
+	if n := strings.IndexAny(expr, ".([ "); 0 <= n {
+		return expr[:n]
+	}
+	return expr
 }
 
 // RetError returns whether the assignment returns an error value.
@@ -189,13 +221,14 @@ func (c SliceTypecastAssignment) String() string {
 	sb.WriteString(c.Typ)
 	sb.WriteString(", len(")
 	sb.WriteString(c.RHS)
-	sb.WriteString("))\nfor i, e := range ")
+	i, e := loopVarNames(c.LHS, c.RHS, c.Cast)
+	sb.WriteString("))\nfor " + i + ", " + e + " := range ")
 	sb.WriteString(c.RHS)
 	sb.WriteString("{\n")
 	sb.WriteString(c.LHS)
-	sb.WriteString("[i] = ")
+	sb.WriteString("[" + i + "] = ")
 	sb.WriteString(c.Cast)
-	sb.WriteString("(e)\n}\n}\n")
+	sb.WriteString("(" + e + ")\n}\n}\n")
 	return sb.String()
 }
 
